@@ -19,7 +19,7 @@ import ast
 import asyncio
 import itertools
 
-from vf import par, vloop
+from vf import par, vloop, vloopx
 
 NEEDS_SERVICES = False
 
@@ -122,7 +122,7 @@ def make_run_one(cap, weights, pre, hold, exits, victims):
             except Exception:  # noqa: BLE001  (a changed representation only weakens pruning keys, not soundness checks)
                 q = repr(evs)
             relevant = tuple(j for j in st['arrivals'] if phase[j][0] == 'wait' or st['kinds'].get(j) == K_QUEUED)
-            return (tuple(phase), tuple(t.done() for t in tasks.values()), tuple(sorted(st['kinds'].items())), st['held'],
+            return (tuple(phase), tuple(vloopx.pc(t) for t in tasks.values()), tuple(sorted(st['kinds'].items())), st['held'],
                     relevant, st['waited'], st['viol'] is None, getattr(sem, 'value', None), q)
 
         def hook():
